@@ -235,9 +235,11 @@ class Trajectory(PymatgenTrajectory):
         kwargs.setdefault('parse_potcar_file', False)
 
         if not cache:
-            # every option that changes the parsed trajectory must be part of the key
+            # every option that changes the parsed trajectory must be part of the key,
+            # and so must the file itself (`with_suffix` drops its last suffix)
             serialized = json.dumps(
-                {**kwargs, 'constant_lattice': constant_lattice}, sort_keys=True
+                {**kwargs, 'xml_file': str(xml_file), 'constant_lattice': constant_lattice},
+                sort_keys=True,
             ).encode()
             hashid = hashlib.sha1(serialized).hexdigest()[:8]
             cache = Path(xml_file).with_suffix(f'.xml.{hashid}.cache')
